@@ -159,6 +159,11 @@ def heads_for(sc):
     out += [("spelling-ok", t + "0"), ("spelling-ok", "0" + t), ("spelling-ok", "+" + t), ("spelling-ok", t + "e0"),
             ("spelling-ok", " " + t), ("spelling-ok", t + " "), ("spelling-ok", "\t" + t + "\n"), ("spelling-ok", t + "000000000000"),
             ("spelling-ok", "%de-1" % round(b * 10)), ("spelling-ok", t.replace(".", ".") + "E+0")]
+    # digits and blanks outside ASCII that float() takes on every supported interpreter (full-width, Arabic-Indic,
+    # Devanagari digits; ideographic space, no-break space)
+    for zero in (0xff10, 0x0660, 0x0966):
+        out.append(("spelling-ok", "".join(chr(zero + int(ch)) if ch.isdigit() else ch for ch in t)))
+    out += [("spelling-ok", t + "\u3000"), ("spelling-ok", "\u00a0" + t)]
     if b == int(b):
         out += [("spelling-ok", "%d" % b), ("spelling-ok", "%d." % b), ("spelling-ok", "%d.00" % b)]
     if b == 0:
